@@ -242,5 +242,9 @@ From GQL Require Gen.Kinds.
    Gen/VisitorKeys.v (ast structs and QueryDocumentKeys) numbers. *)
 Theorem C14_gen_kinds :
   map snd Gen.Kinds.kinds = map snd kind_names /\ map fst Gen.Kinds.kinds = map snd Gen.Kinds.kinds.
-Proof. split; vm_compute; reflexivity. Qed.
+Proof.
+  split;
+  first [ vm_compute; reflexivity
+        | fail 1 "generated-table obligation C14_gen_kinds no longer holds against the regenerated table: the constants of language/kinds/kinds.go (Gen/Kinds.v) are not the kinds of Gen/VisitorKeys.v" ].
+Qed.
 Print Assumptions C14_gen_kinds.
